@@ -44,3 +44,10 @@ def pattern_standard_overcount(case, observed):
     prototypes are translates of estimated prototypes than there are estimated patterns."""
     from mc.tasks import pattern as tp
     return tp.pattern_standard_overcount(case, observed)
+
+
+def chord_inv_bass_not_chord_tone(case, observed):
+    """majmin_inv / sevenths_inv: the 'bass must be a chord tone' test is vacuous because encode() inserts the bass
+    into the bitmap before the test (majmin_inv(['C/6'], ['C/6']) == 1 instead of -1)."""
+    rm = case.get("ref_model") or {}
+    return rm.get("bass_is_chord_tone") is False
